@@ -17,7 +17,7 @@ RULE = ('cases = (table sizes incl. 0,1,2,254..257,300 and random; protocol vers
         'reached `connected` with at least one table entry.')
 ASSUMPTIONS = ['simulated device implements the firmware TOC protocol (V1 and V2) as documented',
                'platform / link-control requests are never lost (the library sends them without retry)']
-REQUIRED = ['mon.copies_of_item_answers_arriving_in_the_extended_type_phase', 'mon.cached_sessions_with_one_checksum_for_both_tables', 'mon.tables_at_connected', 'mon.lookup_entries', 'mon.stale_sessions', 'mon.lossy_retransmissions',
+REQUIRED = ['mon.stale_item_answers_right_in_front_of_the_table_info_answer', 'mon.copies_of_item_answers_arriving_in_the_extended_type_phase', 'mon.cached_sessions_with_one_checksum_for_both_tables', 'mon.tables_at_connected', 'mon.lookup_entries', 'mon.stale_sessions', 'mon.lossy_retransmissions',
             'mon.v1_cases', 'mon.over_255', 'mon.cache_reconnects', 'mon.early_param_packets',
             'mon.stale_item_replies_mid_download', 'mon.cache_shared_with_another_firmware',
             'mon.cache_files_in_an_older_format']
@@ -206,6 +206,23 @@ def run(desc, ctx):
             spec.carry = [(rnd.uniform(0.0, span), h, d) for (h, d) in left]
             if span > 0.003 and left:
                 obs['stale_mid_download'] = True
+            # ... and an item answer of the old session may arrive just in front of the answer to the new session's
+            # question about the table itself (count and checksum)
+            srng = random.Random(desc['seed'] ^ 0x51A1E)
+
+            def item_before_info(sp, n, h, d):
+                outs = [(0.0, h, d)]
+                port = (h >> 4) & 0xF
+                if port in (2, 5) and h & 3 == 0 and d and d[0] in ((3,) if dev.proto >= 4 else (1,)) and srng.random() < 0.5:
+                    count, item = (len(dev.log_toc), dev.log_item) if port == 5 else (len(dev.params), dev.param_item)
+                    if count:
+                        import struct as _st2
+                        idx = srng.randrange(count)
+                        dd = (bytes([2]) + _st2.pack('<H', idx) + item(idx)) if dev.proto >= 4 else (bytes([0, idx]) + item(idx))
+                        outs = [(0.0, simcf.hdr(port, 0), dd)] + outs
+                        obs['stale_item_before_info'] = obs.get('stale_item_before_info', 0) + 1
+                return outs
+            spec.reply_policy = item_before_info
         if pol == 'cachenotify':
             # first connection fills the cache; the second one (same object or a fresh one sharing the cache) is
             # served from it while the device also sends parameter packets of its own
@@ -302,6 +319,7 @@ def run(desc, ctx):
         if obs.get('stale_mid_download'):
             ctx.count('mon.stale_packets_delivered_mid_download')
         ctx.count('mon.stale_item_replies_mid_download', obs.get('stale_items', 0))
+        ctx.count('mon.stale_item_answers_right_in_front_of_the_table_info_answer', obs.get('stale_item_before_info', 0))
     if obs.get('old_format_cache'):
         ctx.count('mon.cache_files_in_an_older_format')
     if obs.get('other_firmware_cached'):
